@@ -165,6 +165,10 @@ type cbRec struct {
 	RuleID int
 }
 
+// debugLevel is the level of the recording debug logger (Error by default;
+// C20 lowers it to Warn so that a failure reported as a warning counts as visible).
+var debugLevel = debuglog.LevelError
+
 type closer interface{ Close() error }
 
 func (h *wafHandle) Close() {
@@ -187,7 +191,7 @@ func buildWAF(directives string) (h *wafHandle, err error) {
 		WithErrorCallback(func(mr types.MatchedRule) {
 			h.ErrCB = append(h.ErrCB, cbRec{TxID: mr.TransactionID(), RuleID: mr.Rule().ID()})
 		}).
-		WithDebugLogger(debuglog.Default().WithOutput(&h.DebugBuf).WithLevel(debuglog.LevelError))
+		WithDebugLogger(debuglog.Default().WithOutput(&h.DebugBuf).WithLevel(debugLevel))
 	w, err := coraza.NewWAF(cfg)
 	if err != nil {
 		recWriters = recWriters[:before]
